@@ -35,7 +35,8 @@ def is_open(model: Model, op) -> bool:
         if k == "l_unlink_from":
             return op[2] is None or model.L[op[1]]["verts"].count(op[2]) > 1
         if k == "link":
-            return bool(op[5]) and not model._all_plain_at(op[2])
+            return (bool(op[5]) and not model._all_plain_at(op[2])
+                    and model.first_joining_before_awkward(op[2], op[4]) is None)
         if k == "unlink":
             return not model._all_plain_at(op[1])
     except KeyError:
